@@ -189,7 +189,7 @@ func (i UInt32) ExponentiateUInt32(other UInt32) UInt32 {
 	}
 	result := i
 	var j UInt32
-	for j = 2; j <= other; j++ {
+	for j = other; j > 1; j-- {
 		result *= i
 	}
 	return result
